@@ -444,6 +444,44 @@ func (g *Gen) setupTable(prog *[]core.Op, parent, id string) {
 	g.tables = append(g.tables, TableName(parent, id))
 }
 
+// fullNodeTable: a table whose row count fills a node of the btree engine exactly (degree 16: 31 rows
+// fill the root leaf, then every 16 more the rightmost leaf), inserted in key order, every row with
+// cells in both families; then a request that rewrites every row in one pass over the table — a family
+// drop (and its re-creation, which would show cells that survived), or a GC pass that condemns one
+// version per column.  A store that restructures itself under the rewriting scan must not end it early.
+func (g *Gen) fullNodeTable(prog *[]core.Op) {
+	o := &Op{Kind: "create", Parent: "p", ID: "full"}
+	rule := &Rule{Kind: "v", N: 1}
+	for _, f := range Fams {
+		fd := FamDef{Name: f}
+		if g.P.Name == "c16" {
+			fd.Rule = rule
+		}
+		o.Fams = append(o.Fams, fd)
+	}
+	*prog = append(*prog, o)
+	name := TableName("p", "full")
+	n := core.Pick(g.R, []int{31, 31, 47, 63, 30, 32})
+	w := &Op{Kind: "mutaterows", Name: name}
+	for i := 0; i < n; i++ {
+		var ms []Mut
+		for _, f := range Fams {
+			ms = append(ms, Mut{Kind: "set", Fam: f, Qual: []byte("q"), TS: 1000, Val: []byte("x")},
+				Mut{Kind: "set", Fam: f, Qual: []byte("q"), TS: 2000, Val: []byte("y")})
+		}
+		w.Entries = append(w.Entries, Entry{Key: []byte(fmt.Sprintf("r%03d", i)), Muts: ms})
+	}
+	*prog = append(*prog, w)
+	if g.P.Name == "c16" {
+		*prog = append(*prog, &Op{Kind: "gc", Name: name}, g.fullRead(name))
+		return
+	}
+	*prog = append(*prog,
+		&Op{Kind: "modify", Name: name, Mods: []FamMod{{Kind: "drop", ID: Fams[0]}}},
+		&Op{Kind: "modify", Name: name, Mods: []FamMod{{Kind: "create", ID: Fams[0]}}},
+		g.fullRead(name))
+}
+
 // fillRows writes a dense table: every key gets a few cells.
 func (g *Gen) fillRows(prog *[]core.Op, table string) {
 	var entries []Entry
@@ -473,6 +511,9 @@ func (g *Gen) Program() []core.Op {
 	}
 	if g.P.ManyRows {
 		g.fillRows(&prog, g.tables[0])
+	}
+	if (g.P.Name == "c14" || g.P.Name == "c16" || g.P.Name == "c17") && g.R.Chance(1, 5) {
+		g.fullNodeTable(&prog)
 	}
 	if g.P.DeepColumn && g.R.Chance(1, 2) {
 		// a column with a long history (more versions than any small-slice fast path handles), counters in it
